@@ -253,6 +253,57 @@ fn lag_body(bursts: u32, per: u32) -> vsched::Body {
     })
 }
 
+/// Default port only: a subscribe() by another task is in progress (it holds the subscription list) at the very
+/// moment of a publication. The established subscriber still receives every publication; the newcomer receives
+/// those published after its subscription.
+fn subscribe_race_body() -> vsched::Body {
+    Arc::new(move || {
+        Box::pin(async move {
+            let port: Arc<OutputPort<u32>> = Arc::new(OutputPort::default());
+            let global: Arc<Mutex<Vec<(u8, u32)>>> = Arc::new(Mutex::new(vec![]));
+            let l1: L = Arc::new(Mutex::new(vec![]));
+            let l2: L = Arc::new(Mutex::new(vec![]));
+            let (s1, h1) = Actor::spawn(None, Sink { global: global.clone(), id: 1, log: l1.clone(), stop_after: None, slow_ms: 0 }, ()).await.expect("sink");
+            let (s2, h2) = Actor::spawn(None, Sink { global: global.clone(), id: 2, log: l2.clone(), stop_after: None, slow_ms: 0 }, ()).await.expect("sink");
+            port.subscribe(s1.clone(), Some);
+            let p2 = port.clone();
+            let publisher = vsched::spawn("publisher", async move {
+                for i in 0..5u32 {
+                    p2.send(i);
+                    vsched::yield_now().await;
+                }
+            });
+            let (p3, s2b) = (port.clone(), s2.clone());
+            let subscriber = vsched::spawn("subscriber", async move {
+                for _ in 0..vsched::choose_free("subscribe-delay", 4) {
+                    vsched::yield_now().await;
+                }
+                p3.subscribe(s2b, Some);
+            });
+            let _ = publisher.await;
+            let _ = subscriber.await;
+            vsched::quiesce_time();
+            let mut bad = Vec::new();
+            let g1 = l1.lock().unwrap().clone();
+            if g1 != vec![0, 1, 2, 3, 4] {
+                bad.push(format!("the established subscriber received {g1:?}, expected every publication [0, 1, 2, 3, 4] (another actor was subscribing meanwhile)"));
+            }
+            let g2 = l2.lock().unwrap().clone();
+            if !g2.windows(2).all(|w| w[0] + 1 == w[1]) || (!g2.is_empty() && g2.last() != Some(&4)) {
+                bad.push(format!("the newcomer received {g2:?}: not a gap-free tail of the publications"));
+            }
+            let key = format!("{g2:?}");
+            for (r, h) in [(s1, h1), (s2, h2)] {
+                r.stop(None);
+                let _ = h.await;
+            }
+            drop(port);
+            vsched::quiesce();
+            Outcome { key, violations: bad }
+        })
+    })
+}
+
 pub fn plan(tier: &str) -> Plan {
     let thorough = tier == "thorough";
     let cfg = ExecCfg::default();
@@ -289,6 +340,12 @@ pub fn plan(tier: &str) -> Plan {
             let b: vsched::Body = if V2 { Arc::new(|| Box::pin(async { Outcome { key: "wrong build".into(), violations: vec!["MACHINERY: unit scheduled on the wrong build".into()] } })) } else { lag_body(bursts, per) };
             units.push(Unit::explore_split(Job::new(format!("v1/repeated-lag/{bursts}x{per}"), fine.clone(), Some(bound), b), 4));
         }
+    }
+    // a subscribe in progress at the moment of a publication (decision points at the subscription list's lock)
+    {
+        let fine = ExecCfg { filter: Some(Arc::new(|k, l, t: &vsched::TaskInfo| k == vsched::PointKind::Lock && l.starts_with("rwlock") && (t.role == "publisher" || t.role == "subscriber"))), ..Default::default() };
+        let b: vsched::Body = if V2 { Arc::new(|| Box::pin(async { Outcome { key: "wrong build".into(), violations: vec!["MACHINERY: unit scheduled on the wrong build".into()] } })) } else { subscribe_race_body() };
+        units.push(Unit::explore_split(Job::new("v1/subscribe-vs-publish".to_string(), fine, Some(bound), b), 4));
     }
     for build_v2 in [false, true] {
         for sc in &scs {
